@@ -10,8 +10,8 @@ PROP = "C15"
 LEVEL = "model_checking"
 ANCHOR_PREFIXES = ["context::", "transform::", "reuse::", "expression::eval_vars", "expression::eval_attr", "loop_el::"]
 BOUNDS = ("programs of <= 7 nodes, nesting depth <= 3, over {<var k>, <var j>, chained <var k j=$k>, swap <var k=$j j=$k>, <g k=..>, <g>, <reuse k=..> of a probing template in <specs>, "
-          "<loop count=2>, <if test=1>, probe, probe carrying a forward reference}; two variable names; every definition a distinct symbolic integer in [-1000,1000]; "
-          "probes read $k and $j through pass-through attributes; generated from a seeded grammar (thorough: 4000 programs, quick: 400)")
+          "<reuse> of a template whose evaluation needs a forward reference, <loop count=2>, <if test=1>, probe, probe carrying a forward reference}; plus <var> elements that themselves need a forward reference (plain, swap, chained, accumulating); two variable names; every definition a distinct symbolic integer in [-1000,1000]; "
+          "probes read $k and $j through pass-through attributes; generated from a seeded grammar (thorough: 20000 programs, quick: 2500)")
 ASSUMPTIONS = ["scopes are opened by <g>/<symbol> and <reuse> (docs expressions.md 'attribute locals'); <loop>/<if> do not open a scope; <var> assigns into the innermost open scope",
                "all attributes of one <var> read the bindings in force before it; an undefined $name is left verbatim"]
 
@@ -22,7 +22,7 @@ VDOM = (-1000, 1000, 0)
 def gen_items(rnd, depth, budget, top=False):
     items = []
     n = rnd.randint(1, 3 if not top else 4)
-    kinds = ["var_k", "var_j", "chain", "swap", "probe", "probe", "fwd", "g_k", "g0", "reuse", "loop", "if"]
+    kinds = ["var_k", "var_j", "chain", "swap", "probe", "probe", "fwd", "g_k", "g0", "reuse", "reuse_e", "loop", "if"]
     for _ in range(n):
         if budget[0] <= 0:
             break
@@ -38,7 +38,7 @@ def gen_items(rnd, depth, budget, top=False):
 
 
 def templates(tier, seed):
-    n = 4000 if tier == "thorough" else 400
+    n = 20000 if tier == "thorough" else 2500
     tds = []
     # hand-written programs from the property text come first
     fixed = [
@@ -52,8 +52,18 @@ def templates(tier, seed):
         [["var_k"], ["loop", [["var_k"], ["probe"]]], ["probe"]],
         [["var_k"], ["if", [["g_k", [["fwd"]]]]], ["probe"]],
     ]
+    fixed += [
+        [["var_k"], ["reuse_e"], ["probe"]],
+        [["var_k"], ["var_j"], ["reuse_e"], ["reuse"], ["probe"]],
+        [["var_k"], ["g_k", [["reuse_e"], ["probe"]]], ["reuse"], ["probe"]],
+        [["reuse_e"], ["reuse_e"], ["probe"]],
+    ]
     for i, p in enumerate(fixed):
         tds.append(dict(fam="fixed", prog=p, n=i))
+    for form in ("plain", "swap", "chain", "counter"):
+        for nprobe in (1, 2):
+            for inner in (False, True):
+                tds.append(dict(fam="varfwd", form=form, nprobe=nprobe, inner=inner, n=len(tds)))
     rnd = random.Random(1000 + (seed if tier == "quick" else 0))
     seen = set()
     while len(tds) < n + len(fixed):
@@ -152,6 +162,17 @@ def render(items, ren, stack, in_scope_with_fwd=None):
             ren.expect.append(dict(k=lookup(stack, "k"), j=lookup(stack, "j")))
             stack.pop()
             ren.features.add("reuse")
+        elif k == "reuse_e":
+            # the instance cannot be evaluated until `later` is known: the scope pushed for the instantiation must not
+            # survive the failed attempt
+            v = ren.newvar()
+            ren.doc.append(f'<reuse href="#tple" k="[[{v}]]"/>')
+            stack.append({"k": v})
+            ren.expect.append(dict(k=lookup(stack, "k"), j=lookup(stack, "j")))
+            stack.pop()
+            ren.has_fwd = True
+            ren.features.add("fwd")
+            ren.features.add("fwd-inside-scope")
         elif k == "loop":
             ren.doc.append('<loop count="2">')
             start_doc = len(ren.doc)
@@ -204,7 +225,7 @@ def replay_render(items, ren, stack, nv_start):
                 stack.append({"k": nextvar()} if k == "g_k" else {})
                 go(it[1], stack)
                 stack.pop()
-            elif k == "reuse":
+            elif k in ("reuse", "reuse_e"):
                 v = nextvar()
                 stack.append({"k": v})
                 ren.expect.append(dict(k=lookup(stack, "k"), j=lookup(stack, "j")))
@@ -221,12 +242,58 @@ def replay_render(items, ren, stack, nv_start):
     go(items, stack)
 
 
+def build_varfwd(td, wrong):
+    """a <var> that itself needs a forward reference is retried as a whole: its assignment must happen exactly once, from
+    the values in force before it.  Only probes that are themselves deferred (and therefore evaluated after the retry)
+    are read, so that the expected values are the lexical ones."""
+    form = td["form"]
+    vars_ = [(11, *VDOM), (18, *VDOM), (25, *VDOM)]
+    pre = '<var k="[[0]]" j="[[1]]"/>'
+    if form == "plain":
+        var, ek, ej = '<var k="[[2]]" w="{{#later~w}}"/>', 2, 1
+    elif form == "swap":
+        var, ek, ej = '<var k="$j" j="$k" w="{{#later~w}}"/>', 1, 0
+    elif form == "chain":
+        var, ek, ej = '<var k="[[2]]" j="$k" w="{{#later~w}}"/>', 2, 0
+    else:
+        var, ek, ej = '<var k="{{$k + [[2]]}}" w="{{#later~w}}"/>', ("sum", 0, 2), 1
+    probe = '<rect xy="#later|h 1" wh="1" data-p="$k" data-q="$j"/>'
+    body = var + probe * td["nprobe"]
+    if td["inner"]:
+        body = f"<g>{body}</g>"
+    doc = f'<svg>{pre}{body}<rect id="later" xy="0" wh="2"/></svg>'
+
+    def check(r):
+        if r.status != "ok":
+            return [Obl("transform-ok", FAIL, ground=True, note=r.docs[0]["msg"][:200])]
+        o = Out(r.output)
+        probes = [e for e in o.all if e.get("data-p") is not None]
+        if len(probes) != td["nprobe"]:
+            return [Obl("probe-count", FAIL, ground=True, note=str(len(probes)))]
+        obls = []
+        for i, e in enumerate(probes):
+            for nm, attr, want in (("k", "data-p", ek), ("j", "data-q", ej)):
+                try:
+                    t = o.tok(e.get(attr))
+                except Exception:
+                    obls.append(Obl(f"probe{i}.${nm}-resolved", FAIL, ground=True, note=str(e.get(attr))))
+                    continue
+                exp = plus(f"v{want[1]}", f"v{want[2]}") if isinstance(want, tuple) else f"v{want}"
+                if wrong and nm == "k":
+                    exp = plus(exp, "1.0")
+                obls.append(Obl(f"probe{i}.${nm}-assigned-once-from-prior-values", ne(t, exp)))
+        return obls
+    return Template(f"varfwd/{form}/{td['nprobe']}/{'g' if td['inner'] else 'top'}", doc, vars_, check, family="var-with-forward-reference", role="C15/var-with-forward-reference", cap=4)
+
+
 def build(td, wrong=False):
+    if td["fam"] == "varfwd":
+        return build_varfwd(td, wrong)
     import copy
     ren = Ren()
     stack = [{}]
     render(copy.deepcopy(td["prog"]), ren, stack)
-    doc = '<svg><specs><rect id="tpl" wh="1" data-p="$k" data-q="$j"/></specs>' + "".join(ren.doc) + '<rect id="later" xy="0" wh="2"/></svg>'
+    doc = '<svg><specs><rect id="tpl" wh="1" data-p="$k" data-q="$j"/><rect id="tple" wh="1" data-p="$k" data-q="$j" data-w="{{#later~w}}"/></specs>' + "".join(ren.doc) + '<rect id="later" xy="0" wh="2"/></svg>'
     expect = ren.expect
     feats = ren.features
     # role signatures for known-finding matching.  The unit that is re-evaluated because of a forward reference is the
@@ -234,10 +301,10 @@ def build(td, wrong=False):
     # later item are what a re-evaluation can wrongly observe.
     def has(items, kinds):
         return any(it[0] in kinds or (len(it) > 1 and has(it[1], kinds)) for it in items)
-    first_fwd = next((i for i, it in enumerate(td["prog"]) if has([it], ("fwd",))), None)
+    first_fwd = next((i for i, it in enumerate(td["prog"]) if has([it], ("fwd", "reuse_e"))), None)
     if first_fwd is not None:
         assigns = ("var_k", "var_j", "chain", "swap")
-        if any(has([it], assigns) for i, it in enumerate(td["prog"]) if i > first_fwd or (has([it], ("fwd",)))):
+        if any(has([it], assigns) for i, it in enumerate(td["prog"]) if i > first_fwd or (has([it], ("fwd", "reuse_e")))):
             feats.add("assign-after-fwd")
     if "assign-after-fwd" in feats:
         role = "C15/deferred-element-sees-later-assignment"
@@ -250,7 +317,7 @@ def build(td, wrong=False):
         if r.status != "ok":
             return [Obl("transform-ok", FAIL, ground=True, note=r.docs[0]["msg"][:200])]
         o = Out(r.output)
-        probes = [e for e in o.all if e.get("data-p") is not None and o.tag(e) == "rect" and e.get("id") != "tpl"]
+        probes = [e for e in o.all if e.get("data-p") is not None and o.tag(e) == "rect" and e.get("id") not in ("tpl", "tple")]
         obls = []
         if len(probes) != len(expect):
             return [Obl("probe-count", FAIL, ground=True, note=f"{len(probes)} outputs for {len(expect)} probes")]
